@@ -31,7 +31,9 @@ type parallelGateway struct {
 	reportedIncomingFlows int
 	once                  sync.Once
 	awaitingActions       []chan IAction
-	noOfIncomingFlows     int
+	// incoming sequence flow each parked token arrived over (parallel to awaitingActions)
+	awaitingIncoming  []string
+	noOfIncomingFlows int
 }
 
 func newParallelGateway(wr *wiring, element *schema.ParallelGateway) (gw *parallelGateway, err error) {
@@ -41,20 +43,67 @@ func newParallelGateway(wr *wiring, element *schema.ParallelGateway) (gw *parall
 		mch:                   make(chan imessage, len(wr.incoming)*2+1),
 		reportedIncomingFlows: 0,
 		awaitingActions:       make([]chan IAction, 0),
+		awaitingIncoming:      make([]string, 0),
 		noOfIncomingFlows:     len(wr.incoming),
 	}
 
 	return
 }
 
+// flowWhenReady releases once a token is parked on every incoming sequence
+// flow: it takes the oldest token of each incoming flow; further tokens that
+// arrived over the same incoming flow stay parked for the next activation.
 func (gw *parallelGateway) flowWhenReady() {
-	if gw.reportedIncomingFlows == gw.noOfIncomingFlows {
-		gw.reportedIncomingFlows = 0
-		awaitingActions := gw.awaitingActions
-		gw.awaitingActions = make([]chan IAction, 0)
-		sequences := allSequenceFlows(&gw.outgoing)
-		distributeFlows(awaitingActions, sequences)
+	if gw.noOfIncomingFlows == 0 {
+		return
 	}
+	picked := make([]int, 0, gw.noOfIncomingFlows)
+	seen := make(map[string]struct{}, gw.noOfIncomingFlows)
+	for i, incoming := range gw.awaitingIncoming {
+		if _, ok := seen[incoming]; ok {
+			continue
+		}
+		seen[incoming] = struct{}{}
+		picked = append(picked, i)
+		if len(picked) == gw.noOfIncomingFlows {
+			break
+		}
+	}
+	if len(picked) < gw.noOfIncomingFlows {
+		return
+	}
+	awaitingActions := make([]chan IAction, 0, len(picked))
+	restActions := make([]chan IAction, 0)
+	restIncoming := make([]string, 0)
+	next := 0
+	for i, action := range gw.awaitingActions {
+		if next < len(picked) && picked[next] == i {
+			awaitingActions = append(awaitingActions, action)
+			next++
+		} else {
+			restActions = append(restActions, action)
+			restIncoming = append(restIncoming, gw.awaitingIncoming[i])
+		}
+	}
+	gw.awaitingActions = restActions
+	gw.awaitingIncoming = restIncoming
+	gw.reportedIncomingFlows = len(restActions)
+	sequences := allSequenceFlows(&gw.outgoing)
+	distributeFlows(awaitingActions, sequences)
+}
+
+// incomingOf names the incoming sequence flow a token arrived over; a token
+// whose sequence flow is unknown counts as an arrival of its own.
+func (gw *parallelGateway) incomingOf(flow Flow) string {
+	if flow != nil {
+		if sequenceFlow := flow.SequenceFlow(); sequenceFlow != nil {
+			if idPtr, present := sequenceFlow.Id(); present {
+				return *idPtr
+			}
+		}
+		return "#" + flow.Id().String()
+	}
+	return ""
 }
 
 func (gw *parallelGateway) run(ctx context.Context, sender tracing.ISenderHandle) {
@@ -68,6 +117,7 @@ func (gw *parallelGateway) run(ctx context.Context, sender tracing.ISenderHandle
 				verifAt("and.arrive")
 				gw.reportedIncomingFlows++
 				gw.awaitingActions = append(gw.awaitingActions, m.response)
+				gw.awaitingIncoming = append(gw.awaitingIncoming, gw.incomingOf(m.flow))
 				gw.flowWhenReady()
 				gw.tracer.Send(IncomingFlowProcessedTrace{Node: gw.element, Flow: m.flow})
 			}
